@@ -66,7 +66,7 @@ def rand_scenario(rng, max_hosts=5, big=False, like=None):
     addrs = list(hosts)
     sens = {}
     for a in rng.sample(addrs, rng.randint(1, min(3, len(addrs)))):
-        sens[a] = rng.choice([1, 10, 100, 200, 0.5, 37.25])
+        sens[a] = rng.choice([1, 10, 100, 200, 0.5, 37.25]) if rng.random() < 0.8 else rng.choice([1, 2, 0.5])
     fw = {}
     for i in range(n):
         for j in range(n):
@@ -78,6 +78,8 @@ def rand_scenario(rng, max_hosts=5, big=False, like=None):
                     fw[(i, j)] = list(svc_l)
                 else:
                     fw[(i, j)] = [x for x in svc_l if rng.random() < pfw]
+    # now and then the largest number in the tensor is a discovery value (Box bounds, C10)
+    dv_choices = [0, 1, 2, -1, 0.5] if rng.random() < 0.8 else [0, 5, 25, -7]
     H = {}
     for a, c in hosts.items():
         hf = {}
@@ -87,7 +89,7 @@ def rand_scenario(rng, max_hosts=5, big=False, like=None):
         val = sens.get(a, rng.choice([0, 0, 1, -5, 3, 0.25, -0.5]))
         H[a] = Host(address=a, os=c["os"], services=c["services"], processes=c["processes"],
                     firewall=hf, value=float(val),
-                    discovery_value=float(rng.choice([0, 1, 2, -1, 0.5])))
+                    discovery_value=float(rng.choice(dv_choices)))
     exploits = {}
     for i in range(rng.randint(1, 3)):
         exploits[f"e{i}"] = dict(service=rng.choice(svc_l), os=rng.choice(os_l + [None]),
